@@ -1,4 +1,4 @@
-\* the observer accepts every behaviour of the corrected HostMap: one http and one https key (two maps), 2 callers x 1 call, MaxConns 1, 2 ticks, reaper, retry window (no CloseIdleConnections: HostMapObsMC_quick_ci)
+\* the observer accepts: two maps, 2 callers x 1 call, MaxConns 1, 2 ticks, 1 CloseIdleConnections, 1 reap, 1 retry
 CONSTANTS
   Keys = {"a", "b"}
   TLSKeys = {"b"}
@@ -7,7 +7,7 @@ CONSTANTS
   NH = 2
   MaxConns = 1
   MaxTicks = 2
-  MaxCI = 0
+  MaxCI = 1
   MaxReap = 1
   Retries = 1
   HoldCounted = TRUE
